@@ -142,6 +142,9 @@ def genuine_model(ob, m):
     c = ob.ctx
     env0 = {k: v for k, v in m.items() if k not in c.numdefs}
     try:
+        for nm in c.order:
+            if nm not in env0 and nm not in c.numdefs:
+                env0[nm] = 0          # the solver left an input unconstrained: any value will do
         env = T.complete_env(c, env0)
         for nm in c.order:
             if nm not in env:
